@@ -54,7 +54,10 @@ CHECKS = {
                 "reference) and split into 2-5 files with within clauses; merge: parse + Tree.extend in EVERY permutation "
                 "of the files, every class flattened and compared with the single-file library; walk: the CasADi API "
                 "(transfer_model) and the compiler tool on the folder with os.scandir's order decided by the plan (all "
-                "permutations of <= 4 entries per directory, flat and nested layouts). distinct_nontrivial = distinct "
+                "permutations of <= 4 entries per directory; flat, nested and standard package.mo-per-directory layouts, "
+                "the latter with equal base names in several directories); the API result is also compared (compiles? same "
+                "variables?) with the API run on the single-file library. A fifth of the libraries have a top package "
+                "whose own declaration is nothing but an import clause. distinct_nontrivial = distinct "
                 "(split shape, permutation class, entry point, file assignment/order).",
         "assumptions": ["the per-file declaration counter Symbol.order is not part of the flattened model and is ignored "
                         "in the comparison", "walk leg: models compared across directory orders (not with the single file), "
@@ -70,7 +73,9 @@ CHECKS = {
                 "parsed tree, every request compared with the same request on a fresh copy of the parse: sweep = every class "
                 "of every library (own pool + every test model) in three fixed shapes (each twice, all then reversed, "
                 "backends mixed in), seeded = 2-10 random requests, cli = tools.compiler.main with 2-3 -m requests in both "
-                "orders against the single requests. distinct_nontrivial = distinct (library, multiset of classes "
+                "orders against the single requests. Own pool: 10 libraries (connectors, redeclare of replaceable models with "
+                "modified components, package-level and aliased imports incl. classes whose lookup fails, shadowing "
+                "packages, deep extends chains, arrays, functions). distinct_nontrivial = distinct (library, multiset of classes "
                 "requested before, class, operation) with a non-empty history.",
         "assumptions": ["no fault dimension exists for this property; the simulated parties are the callers sharing a tree",
                         "a request that fails on a fresh parse only has to fail on the shared tree too"],
@@ -80,7 +85,8 @@ CHECKS = {
         "engine": "copy_hist",
         "level": "exploration",
         "rule": "Forests of trees created by copy.deepcopy (copies of copies up to depth 3) whose owners interleave "
-                "add/remove symbol/equation/class edits; after every edit the edited class, a class reaching it through a "
+                "add/remove symbol/equation/class edits and grafts (a copy of one class of ANOTHER owner's tree, taken with "
+                "find_class / deepcopy / copy_including_children, put in place of the class of the same name); after every edit the edited class, a class reaching it through a "
                 "component type and one through extends are flattened (via a throw-away deep copy, and via the SymPy/XML "
                 "backends, and directly as the last use) on the edited tree (edit visible) and on another tree (invisible) "
                 "and compared with a fresh parse + replayed edit log. distinct_nontrivial = distinct (library, copy depth, "
@@ -94,8 +100,10 @@ CHECKS = {
         "rule": "Seeded histories of 2-14 add / remove / copy operations over 3-6 variable names with both signs, "
                 "operations addressed to a plan-chosen replica (copies, copies of copies); add pairs that would relate a "
                 "variable to its own negation are skipped as the property excludes them. After every operation every "
-                "replica is compared with a signed union-find for every signed name (aliases, canonical_signed, "
-                "canonical_variables, iteration). distinct_nontrivial = distinct (signed partition before, operation) "
+                "replica is compared with a signed union-find (aliases, canonical_signed, canonical_variables, iteration); "
+                "which names are looked up after an operation, and in which order, is part of the plan (every name sorted / "
+                "every name in a seeded order / 0-3 chosen names, plus a full pass in a seeded order at the end), because a "
+                "look-up may itself change the object. distinct_nontrivial = distinct (signed partition before, operation) "
                 "pairs with a non-trivial class before or after.",
         "assumptions": ["sampling, not exhaustive exploration up to state equivalence (that would be model checking); the "
                         "number of distinct abstract states reached is reported so saturation is visible",
@@ -107,19 +115,25 @@ CHECKS = {
     "C19": {
         "engine": "mcache",
         "level": "exploration",
-        "rule": "save -> simulated process restart -> load [-> load again], optionally with a cwd change, for every model of "
+        "rule": "[build for another option set first ->] save -> simulated process restart -> load [-> load again in the same "
+                "process], optionally with a cwd change, with the caller changing the models it was given between the calls "
+                "(outputs, string values, attributes, alias relation), in three folder layouts, for every model of "
                 "the pool (parameter-dependent attributes, array parameters/variables, aliases, delays with "
                 "parameter-dependent duration, strings, library classes via extends/component) x 6 option sets with seeded "
                 "literals; distinct_nontrivial = distinct (model, option set, structural variant, history shape) whose "
-                "load was compared with a fresh compile.",
+                "load was compared with a fresh compile. Config roundtrip_codegen: the same round trip for the compiled-library "
+                "format (every simulated process a real child interpreter; half of the runs with libraries of an earlier "
+                "build for other options in the folder).",
         "assumptions": ["program dimension limited to the model pool (this family contributes the storage path only)",
-                        "cache (pickle) format only; codegen format not simulated"],
+                        "codegen format: four pool models, a handful of runs in the quick tier (a build costs seconds)"],
         "components": _COMPONENTS_MCACHE,
     },
     "C20": {
         "engine": "mcache",
         "level": "exploration",
-        "rule": "Seeded histories of 4-12 operations: edit a model or library file (mtime strictly later than the cache, "
+        "rule": "Seeded histories of 4-12 operations (30 % built around a revisit motif A -> B -> A of options, version or "
+                "file contents), in three folder layouts (library beside the model folder, beside it with a common name "
+                "prefix, inside it; a sub-directory of the library may be a symlink): edit a model or library file (mtime strictly later than the cache, "
                 "also after backward clock jumps), add a missing file, change option set, change version, restart, clock "
                 "jump, transfer_model; after every transfer the result is compared with a fresh compile of the current "
                 "sources. distinct_nontrivial = distinct (model, option set, pending invalidation causes, same process?, "
@@ -138,10 +152,14 @@ CHECKS = {
                 "offsets for 2 models, thorough: every offset for every pool model), with and without an older cache "
                 "file; trunc: every strict prefix (quick: 150) of a complete cache file; race: seeded interleavings of "
                 "2-3 transfer_model calls at file-operation granularity with short-write chunking. After each, a new "
-                "process must get a correct model twice. distinct_nontrivial = distinct crash points that fired + "
+                "process must get a correct model twice. codegen_crash: compiled-library format - build, a cause for a rebuild "
+                "(options / edit / version), the rebuilding process killed at one of its file operations (between the "
+                "library builds, inside the cache-file write), then new processes ask again, mostly with the options / "
+                "version the surviving cache file was written for. distinct_nontrivial = distinct crash points that fired + "
                 "distinct truncation lengths + distinct race schedule signatures.",
         "assumptions": ["process-kill durability (bytes handed to write() are on disk, in order); power-loss reordering is "
-                        "not simulated", "cache mode only"],
+                        "not simulated", "byte-offset enumeration and races: pickle format; codegen format: kill points at the "
+                        "file operations the Python side performs (the C compiler's own writes are not interrupted)"],
         "components": _COMPONENTS_MCACHE,
     },
     "C01": {
@@ -151,12 +169,16 @@ CHECKS = {
                 "whitespace-variant and syntactically broken texts; expiration/update flags; folder given or default), "
                 "process restart, version change (3 labels + a dirty one), clock jumps (+1 s .. +400 d, -1 d, -40 d), "
                 "crash of the process between two SQL statements, corruption of an entry (garbage, prefix, empty, "
-                "class gone, NULL), of the table layout and of the database file; configs nofault / faults. "
+                "class gone, NULL), of the table layout and of the database file (garbage, truncations, byte flips, deletion, "
+                "and page-level damage that leaves every row well-formed: index entries pointing at the wrong rows); configs "
+                "nofault / faults. "
                 "distinct_nontrivial = distinct (abstract state, operation) pairs executed by parse operations, where "
                 "abstract state = (file class, process initialised?, label, bitmap of pool texts cached under the label, "
                 "bitmap of those older than a day).",
         "assumptions": ["SQLite-internal torn writes are represented by whole-file corruption operations only",
                         "a blob that still unpickles to a different object is outside the property and is never generated",
+                        "one known finding (index damaged after the live process verified the file) is listed in "
+                        "known_findings.json; half of the histories restart the process after that damage",
                         "a seeded sample of histories"],
         "components": _COMPONENTS_COMMON,
     },
@@ -167,7 +189,9 @@ CHECKS = {
                 "on one cache folder in initial state absent/empty/fresh/stale/wrong-layout, pre-empted before every SQL "
                 "statement, connect, close, mkdir and remove; configs base (no faults), stall (steps of 0.1-10 simulated s, "
                 "and a stand-in process that holds the EXCLUSIVE/RESERVED lock for 0.3-12 s as one stalled inside COMMIT "
-                "does), crash (a process killed at a yield point), crowd (6-16 processes released at once). "
+                "does), crash (a process killed at a yield point), crowd (6-16 processes released at once), fine (every LINE of "
+                "the cache code in parser.py is a pre-emption point and a possible kill point as well, via sys.settrace in "
+                "the actor threads, so check-then-act sequences between two seam calls interleave). "
                 "distinct_nontrivial = distinct schedule signatures (hash of the sequence of (actor, seam kind, SQL verb)) "
                 "in which at least one lock conflict occurred (busy handler invoked or immediate SQLITE_BUSY).",
         "assumptions": ["SQLite's own page/journal writes are trusted (no VFS shim)", "a seeded sample of schedules, not "
@@ -226,7 +250,7 @@ MANIFEST_TEXT = {
                       "delays, strings, alias relation, the four functions at seeded inputs). Scoped to what this family "
                       "can add: the storage path, not the space of programs.",
         "design_ref": "DESIGN.md 3.C19",
-        "level_note": "Pool models only; pickle format only; the comparator is the C19 statement made executable and was "
+        "level_note": "Pool models only; pickle format broadly, compiled-library format with a few runs per batch; the comparator is the C19 statement made executable and was "
                       "calibrated on 86 (test model, option set) pairs.",
         "technique": "deterministic simulation: save / simulated-process restart / load histories with a fresh-compile "
                      "reference model",
